@@ -108,8 +108,11 @@ class Corr(Job):
         ok, i, bit = compare_lines(self.mode, a, b, self.projection, self.scale)
         self.bit, self.lines = bit, len(a)
         if not ok:
+            # a difference of VALUES only (same None/Some/panic pattern throughout) at f64 may be mere rounding: see run_jobs
+            value_only = self.mode != "q" and compare_lines(self.mode, a, b, "pattern", self.scale)[0]
             return dict(explanation="implementation and Lean model disagree (projection %s) at output line %d" % (self.projection, i),
-                        expected=b[i] if i < len(b) else None, actual=a[i] if i < len(a) else None, corr_only=True)
+                        expected=b[i] if i < len(b) else None, actual=a[i] if i < len(a) else None, corr_only=True,
+                        value_only=value_only)
         if self.both:
             r = [l for l in rel[0] if not l.startswith("Z")]
             # with debug assertions compiled out, behaviour is only specified up to the first `debug_assert!` the model predicts
@@ -118,8 +121,10 @@ class Corr(Job):
                 r, b = r[:k], b[:k]
             ok, i, _ = compare_lines(self.mode, r, b, self.projection, self.scale)
             if not ok:
+                value_only = self.mode != "q" and compare_lines(self.mode, r, b, "pattern", self.scale)[0]
                 return dict(explanation="release build (debug assertions off) and Lean model disagree at output line %d" % i,
-                            expected=b[i] if i < len(b) else None, actual=r[i] if i < len(r) else None, corr_only=True)
+                            expected=b[i] if i < len(b) else None, actual=r[i] if i < len(r) else None, corr_only=True,
+                            value_only=value_only)
         return None
 
     def nontrivial_key(self, impl):
@@ -533,8 +538,51 @@ def job_from_json(d):
     return JOB_KINDS[d["kind"]].from_json(d)
 
 
+def ops_f_to_q(ops):
+    """the same operation sequence with every f64 operand replaced by its exact rational value (None if not finite)"""
+    out = []
+    for op in ops:
+        parts = op.split(" ")
+        new = [parts[0]]
+        for tok in parts[1:]:
+            if len(tok) == 16 and all(ch in "0123456789abcdef" for ch in tok):
+                v = dec_f(tok)
+                if v != v or v in (float("inf"), float("-inf")):
+                    return None
+                new.append(enc_q(F(v)))
+            else:
+                new.append(tok)
+        out.append(" ".join(new))
+    return out
+
+
+ROUNDING_ONLY = [0]
+
+
 def run_jobs(jobs):
     """run all jobs in three batched process invocations; returns list of (job, failure-or-None)"""
+    res = _run_jobs(jobs)
+    # A Corr job that fails at f64 on VALUES only is re-run in exact arithmetic (the same Rust generic code at Q against the
+    # model at Rat).  If model and implementation agree exactly there, the f64 difference is a difference in rounding, which
+    # no property except C16 speaks about (and C16 measures it itself): it is recorded, not reported.
+    redo = []
+    for k, (j, f) in enumerate(res):
+        if isinstance(j, Corr) and f is not None and f.get("value_only") and j.mode == "f" and j.projection != "pattern":
+            q = ops_f_to_q(j.ops)
+            if q is not None:
+                redo.append((k, Corr(j.e, "q", q, "exact", j.scale, j.both, j.n)))
+    if redo:
+        rr = _run_jobs([c for _, c in redo])
+        for (k, _), (cj, cf) in zip(redo, rr):
+            if cf is None:
+                j = res[k][0]
+                j.rounding_only = True
+                ROUNDING_ONLY[0] += 1
+                res[k] = (j, None)
+    return res
+
+
+def _run_jobs(jobs):
     # stage 1 for Decomp jobs needing the inner outputs
     pre = [j for j in jobs if isinstance(j, Decomp) and j.needs_stage2()]
     if pre:
